@@ -91,6 +91,8 @@ def do_component(c, cls=Event):
         back = cls.from_ical(b)
     except ValueError:
         return "rejected", None
+    except Exception as e:   # noqa: BLE001  (what the library itself wrote must parse or be rejected with a ValueError)
+        return "corrupted", {"props": None, "exception": type(e).__name__ + ": " + str(e)[:80]}
     want = [[NAME, sorted(S(p["k"]).upper() for p in c["ps"])]]
     got = structure(back)
     if back.subcomponents or back.name != ev.name:
